@@ -138,6 +138,7 @@ func main() {
 		}
 		if *stream == "roothash" || *stream == "both" {
 			hists = append(hists, histDesc{Stream: "roothash", HSeed: rng.U64() % 1_000_000, Blocks: 14, Mask: allFeatures, Script: scriptRtSlashReward})
+			hists = append(hists, histDesc{Stream: "roothash", HSeed: rng.U64() % 1_000_000, Blocks: 16, Mask: allFeatures, Script: scriptRtSlashPercent})
 			hists = append(hists, histDesc{Stream: "roothash", HSeed: rng.U64()%1_000_000 | 1, Blocks: 24, Mask: allFeatures, Script: scriptRtInMsgs})
 			hists = append(hists, histDesc{Stream: "roothash", HSeed: rng.U64()%1_000_000 &^ 1, Blocks: 24, Mask: allFeatures, Script: scriptRtInMsgs})
 			// twice: with the debug sanity app (even seed) and without it (odd seed: the production failure)
